@@ -63,11 +63,11 @@ theorem printGo_meas (lib : Lib) (rm : Bool) (cols rows : Int) (l : List Styled)
     · exact ih' _ _ o ho
     · split at ho
       · simp at ho
-      · rcases List.mem_cons.1 ho with rfl | ho
-        · exact measured_w lib rm ch (h (st, ch) List.mem_cons_self)
-        · split at ho
-          · exact ih' _ _ o ho
-          · exact ih' _ _ o ho
+      · split at ho
+        · exact ih' _ _ o ho
+        · rcases List.mem_cons.1 ho with rfl | ho
+          · exact measured_w lib rm ch (h (st, ch) List.mem_cons_self)
+          · split at ho <;> split at ho <;> exact ih' _ _ o ho
 
 theorem truncGo_meas (lib : Lib) (rm : Bool) (hell : lib.cw gEllipsis = 1) (cols row : Int) (l : List Styled)
     (h : ∀ sc ∈ l, ChOk lib rm sc.2) : ∀ (col : Int), ∀ o ∈ truncGo lib rm cols row l col, Meas lib o.cell := by
@@ -110,11 +110,11 @@ theorem wrapChars_meas (lib : Lib) (cols : Int) (st : Nat) (l : List Chr)
     simp only [wrapChars] at ho
     split at ho
     · exact ih' _ _ o ho
-    · rcases List.mem_cons.1 ho with rfl | ho
-      · exact h ch List.mem_cons_self
-      · split at ho
-        · exact ih' _ _ o ho
-        · exact ih' _ _ o ho
+    · split at ho
+      · exact ih' _ _ o ho
+      · rcases List.mem_cons.1 ho with rfl | ho
+        · exact h ch List.mem_cons_self
+        · split at ho <;> split at ho <;> exact ih' _ _ o ho
 
 theorem wrapSegs_meas (lib : Lib) (rm : Bool) (hsp : lib.cw gSpace = 1) (cols rows : Int) (st : Nat) (l : List (List Raw))
     (h : ∀ seg ∈ l, ∀ r ∈ seg, RawOk lib rm r) :
